@@ -250,6 +250,7 @@ func runC01(s *Scenario, opts lab.NodeOpts, ev *Evidence) []Finding {
 		for k, v := range stats {
 			if strings.HasPrefix(k, "known:") {
 				sig := strings.TrimPrefix(k, "known:")
+				dumpKnown("C01", Finding{Prop: "C01", Sig: sig, Msg: "GasUsed of a tx rejected before the ante handler differs after a restart"}, s)
 				for i := 0; i < v; i++ {
 					ev.Known(sig, "KNOWN-FINDING: property=C01 sig="+sig+" after a restart the GasUsed reported for a transaction rejected before the ante handler differs from a node that never stopped")
 				}
